@@ -1052,7 +1052,8 @@ func main() {
 						}
 					}
 
-					// TODO Periodic set
+					// Periodic set
+					sdrive.PeriodicSet(vm, i)
 
 					if *emit_dot {
 						gvfile := bmach.Dot(conf, "", vm, pstatevm)
